@@ -784,3 +784,4 @@ def run(ck):
     ck.control('E3-distinct refutes the `>` mutant of the index shift', any(ok is False for _n2, ok, _w in ds))
     ck.control('R-RANGE-nonclifford refutes a guard that lets even denominators through', nonclifford_phase_rule(fx['fns']['generate::RandomPauliGadgetCircuitBuilder::build'])[0] is False)
     ck.control('R-SETTER flags a setter writing another field', setter_check(fx, None, 'generate::RandomCircuitBuilder::depth', 'depth') != [('depth', True)])
+    ck.include('C15', 'the Pauli-gadget builder conjugates each parity-phase gate by a basis-change layer and ITS ADJOINT (Circuit::adjoint / Gate::adjoint): a wrong adjoint leaves the layer un-undone')
